@@ -323,7 +323,21 @@ const (
 	callTimeout
 )
 
+// confirmedTimeouts counts the calls that did not return even within the extended deadline.
+var confirmedTimeouts int
+
 // guarded runs f with recover and a wall-clock limit.
+//
+// Reaching the limit only makes the call a CANDIDATE for "does not return": on a starved machine a
+// call that normally takes milliseconds can miss it. The harness is sequential, so nothing else of
+// it is running while it waits; the candidate is confirmed by giving the very same call (it is
+// still running, and it cannot be restarted because it writes to the caller's variables) ten
+// times the limit. If it returns in that time the timeout was load-induced: it is counted
+// ("watchdog"/"load_induced_timeouts" in the distribution) and the call's real outcome is used.
+// Only a call that is still not back after 10x the limit is reported as callTimeout. Once two
+// calls have been confirmed not to return, the tree under test is known not to terminate on some
+// inputs and further candidates are taken at the plain limit (each confirmation costs minutes and
+// leaves a spinning goroutine behind).
 func guarded(limit time.Duration, f func()) (out callOutcome, panicMsg string) {
 	done := make(chan struct{})
 	go func() {
@@ -340,6 +354,18 @@ func guarded(limit time.Duration, f func()) (out callOutcome, panicMsg string) {
 	case <-done:
 		return out, panicMsg
 	case <-time.After(limit):
+	}
+	if confirmedTimeouts >= 2 {
+		count("watchdog", "timeouts_after_two_confirmed")
+		return callTimeout, ""
+	}
+	select {
+	case <-done:
+		count("watchdog", "load_induced_timeouts")
+		return out, panicMsg
+	case <-time.After(9 * limit):
+		confirmedTimeouts++
+		count("watchdog", "confirmed_timeouts")
 		return callTimeout, ""
 	}
 }
